@@ -1,8 +1,8 @@
 CONSTANTS EP = {"e1", "e2", "e3"}  Models = {"alphaone", "bravotwo"}  Ask = {"alphaone", "bravotwo", "zuluniner"}
-          Kinds = {"ollama", "vllm"}  Routes = {"proxy", "ollama", "vllm", "anthropic"}  MaxLen = 0
+          Kinds = {"ollama", "vllm"}  Routes = {"proxy", "ollama", "vllm", "anthropic"}  Ops = {}  MaxLen = 0
 CONSTANT KnownDeviations = ${KnownDeviations}
 SPECIFICATION TraceSpec
 CONSTRAINT HW
-INVARIANTS TypeOK ServedByCandidate CandsSound RefusedIsOut NeverListedNeverServed
+INVARIANTS TypeOK ServedByCandidate CandsSound RefusedIsOut NeverListedNeverServed TopTierFirst OpenIsOut
 POSTCONDITION Accepted
 CHECK_DEADLOCK FALSE
